@@ -14,6 +14,8 @@ let c06_op (decls : e2_item list) ((name, a) as it : e2_item) : c06_op op option
   | "q_try" when not (neg ()) -> Some (OUser (QTryLock (i (), e2_arg a 1 z0)))
   | "q_unlock" when not (neg ()) -> Some (OUser (QUnlock (i ())))
   | "q_state" when not (neg ()) -> Some (OUser (QState (i ())))
+  | "q_waiters" when not (neg ()) -> Some (OUser (QWaiters (i ())))
+  | "rw_waiters" when not (neg ()) -> Some (OUser (RwWaiters (i ())))
   | _ -> (match e2_core_op it with Some c -> Some (OCore c) | None -> None)
 let c06_p_line (l : string) : string =
   let (decls, ts) = e2_parse l in
